@@ -17,9 +17,12 @@ import scratch  # noqa: E402
 
 VERIF = scratch.VERIF
 
-# obligation regex -> (crate dir, package, witness file under /verif/witness, test name filter)
+# obligation regex -> (where, package, witness file under /verif/witness, test name filter)
+#   where = "<crate dir>"            : the witness becomes the integration test <crate dir>/tests/verif_<file> (public API only)
+#   where = "append:<repo rel path>" : the witness (a #[cfg(test)] module) is appended to that source file (private access)
 WITNESS = [
     (r"Move::set_previous_halfmove|Bitboard::unmake|Bitboard::make_move", "board", "inkayaku_board", "c03_make_unmake.rs", "witness_"),
+    (r"lemma_shipped_thresholds|Heuristic::evaluate", "append:engine_core/src/engine/heuristic/simple.rs", "inkayaku_engine_core", "c10_fifty_move.rs", "verif_witness_c10"),
 ]
 
 
@@ -33,8 +36,12 @@ def find_witness(obligation):
 def run_witness(crate, pkg, fname, flt, timeout=1500):
     src = open(os.path.join(VERIF, "witness", fname)).read()
     with scratch.Scratch("replay") as s:
-        s.write(f"{crate}/tests/verif_{fname}", src)
-        cmd = ["cargo", "test", "--offline", "-p", pkg, "--test", "verif_" + fname[:-3], "--", flt, "--test-threads", "4"]
+        if crate.startswith("append:"):
+            s.write(crate[len("append:"):], "\n" + src, append=True)
+            cmd = ["cargo", "test", "--offline", "-p", pkg, "--lib", "--", flt, "--test-threads", "4"]
+        else:
+            s.write(f"{crate}/tests/verif_{fname}", src)
+            cmd = ["cargo", "test", "--offline", "-p", pkg, "--test", "verif_" + fname[:-3], "--", flt, "--test-threads", "4"]
         p = subprocess.run(cmd, cwd=s.repo, env=scratch.cargo_env("target-replay"), capture_output=True, text=True, timeout=timeout)
     out = p.stdout[-9000:] + "\n--- stderr (tail) ---\n" + p.stderr[-1500:]
     return p.returncode, out, " ".join(cmd)
